@@ -3,7 +3,7 @@
 import os, sys, json
 sys.path[:0] = ['/verif', '/repo/src']
 from vf.replay import replay
-ARGS = json.loads('{"site_i": 5, "verbosity": 1, "ignore_i": 1, "second_ignore_i": 2, "second_verbosity": 2}')
-r = replay('harness.c20', 'render_twice', ARGS, 'quick')
+ARGS = json.loads('{"site_i": 3, "verbosity": 0, "ignore_i": 0, "second_ignore_i": 2, "second_verbosity": 0}')
+r = replay('harness.c20', 'render_twice[deep1]', ARGS, 'quick')
 print('REPRODUCED: ' + r if r else 'NOT-REPRODUCED')
 sys.exit(1 if r else 0)
